@@ -12,6 +12,7 @@ necessary condition (breaking it breaks the behaviour on some document with a no
                 One reviewed exception: garden_pos_to_lsp_range_no_src (no text available; documented ASCII-only).
   LINE-RELATIVE the text whose UTF-16 length becomes `character` in offset_to_lsp_position starts at the start of
                 the offset's line: the slice start is derived from rfind('\\n') of the text before the offset.
+  NO-SRC-LAST-RESORT the text-less conversion is reached only after an attempt to read the file's text.
   LINE-BYTES    no byte offset computed in lsp:: derives from the lengths of `str::lines()` items (which exclude "\r\n").
   ONE-TEXT      in every function that builds a TextEdit, all the texts involved -- the argument of
                 whole_document_range / garden_pos_to_lsp_range / line_char_to_offset and the source handed to the
@@ -96,8 +97,89 @@ def text_root(P, f, op, depth=0):
     return (f.path.split("::{closure")[0] if "{closure" in f.path and pl["l"] == 1 else f.path, pl["l"])
 
 
+def no_src_last_resort(P, res, rule="NO-SRC-LAST-RESORT"):
+    """the text-less range conversion (byte columns) is a last resort: it is called only after an attempt to read the
+    file's text (std::fs::read_to_string) on the same path, so that a definition in a file that exists is always reported
+    with columns computed from its text. Shared by C23 (go-to-definition positions) and C29."""
+    n = 0
+    for p_, f in sorted(P.funcs.items()):
+        for bi, t in f.calls():
+            if M.callee_name(t) != "lsp::garden_pos_to_lsp_range_no_src":
+                continue
+            n += 1
+            READS = ("std::fs::read_to_string", "std::fs::read")
+
+            def sources(l, seen, depth=0):
+                """callee names (and closures' callee names) that contribute to local l."""
+                out = set()
+                if l in seen or depth > 8:
+                    return out
+                seen.add(l)
+                for (b2, si, st) in f.defs.get(l, []):
+                    if si == "term":
+                        out.add(M.callee_name(st) or "?")
+                        for a_ in st["args"]:
+                            q_ = M.op_place(a_)
+                            if q_ is not None:
+                                out |= sources(q_["l"], seen, depth + 1)
+                    elif st.get("s") == "assign":
+                        rv = st["rv"]
+                        if rv["k"] == "agg" and rv.get("ak") == "closure" and rv.get("def") in P.funcs:
+                            out |= {M.callee_name(t2) or "?" for _, t2 in P.funcs[rv["def"]].calls()}
+                        for key_ in ("a", "b"):
+                            if key_ in rv:
+                                q_ = M.op_place(rv[key_])
+                                if q_ is not None:
+                                    out |= sources(q_["l"], seen, depth + 1)
+                        if "place" in rv:
+                            out |= sources(rv["place"]["l"], seen, depth + 1)
+                        for o_ in rv.get("ops", []):
+                            q_ = M.op_place(o_)
+                            if q_ is not None:
+                                out |= sources(q_["l"], seen, depth + 1)
+                return out
+            # the Option / Result whose "absent" arm leads to the text-less conversion
+            tried = False
+            for sw in D.enum_switches(f):
+                if not f.dominates(sw["bb"], bi):
+                    continue
+                arms = [(tgt, nm) for tgt, nm in sw["by_target"].items()]
+                if sw["otherwise"] not in sw["by_target"] and sw["otherwise_variants"]:
+                    arms.append((sw["otherwise"], sw["otherwise_variants"]))
+                for tgt, nm in arms:
+                    if set(nm) <= {"None", "Err"} and bi in D.edge_dominated(f, sw["bb"], tgt):
+                        r_ = f.root_of({"copy": sw["place"]}, through_named=True)
+                        base_l = r_[1]["l"] if r_[0] == "place" else sw["place"]["l"]
+                        if sources(base_l, set()) & set(READS):
+                            # .. and that attempt is for *this* file: it is made where the file is known not to be the
+                            # request's own document (the false edge of a comparison of two paths), not the read that
+                            # fetched the request's document earlier
+                            read_sites = [b2 for b2, t2 in f.calls() if (M.callee_name(t2) or "") in READS]
+                            for b3, blk in enumerate(f.blocks):
+                                for st in blk["stmts"]:
+                                    if st.get("s") == "assign" and st["rv"]["k"] == "agg" and st["rv"].get("ak") == "closure" and st["rv"].get("def") in P.funcs \
+                                            and any((M.callee_name(t2) or "") in READS for _, t2 in P.funcs[st["rv"]["def"]].calls()):
+                                        read_sites.append(b3)
+                            for eq in D.call_switches(f, "::eq", None):
+                                if "PathBuf" not in " ".join(eq["call"].get("argtys") or []) or eq["false"] is None:
+                                    continue
+                                region = D.edge_dominated(f, eq["bb"], eq["false"])
+                                if any(b2 in region for b2 in read_sites):
+                                    tried = True
+            key = "%s # text-less range" % p_
+            if tried:
+                res.ok(rule, key + ": used only when the text is absent after an attempt to read the file")
+            else:
+                res.bad(rule, key + " # without trying to read the file",
+                        "%s converts a position with byte columns (garden_pos_to_lsp_range_no_src) without first trying to read the file it lies in: for a "
+                        "definition in a file that is not open in the editor, the reported range is wrong as soon as the line has a non-ASCII character "
+                        "before it" % p_, f.loc(t["span"]))
+    res.floor(rule, "uses of the text-less range conversion", n, 1)
+
+
 def run(ctx, res):
     P = ctx.P
+    no_src_last_resort(P, res)
     fns = {p: f for p, f in P.funcs.items() if p.startswith(MOD)}
     for need in ("lsp::offset_to_lsp_position", "lsp::line_char_to_offset", "lsp::whole_document_range", "lsp::garden_pos_to_lsp_range"):
         P.require_fn(need)
